@@ -1,6 +1,7 @@
 package main
 
 import (
+	"unicode"
 	"encoding/json"
 	"flag"
 	"fmt"
@@ -131,6 +132,12 @@ func (p *printer) char(c int, inBr bool) {
 }
 
 func clsText(n string) string {
+	if strings.HasPrefix(n, "p:") {
+		return `\p{` + n[2:] + "}"
+	}
+	if strings.HasPrefix(n, "P:") {
+		return `\P{` + n[2:] + "}"
+	}
 	switch n {
 	case "s", "S", "d", "D", "w", "W":
 		return `\` + n
@@ -169,7 +176,7 @@ func (p *printer) set(f Factor) {
 		case it.T == "ch", it.T == "any":
 			p.item(it, false)
 			return
-		case it.T == "cls" && len(it.N) == 1:
+		case it.T == "cls" && (len(it.N) == 1 || strings.HasPrefix(it.N, "p:") || strings.HasPrefix(it.N, "P:")):
 			p.item(it, false)
 			return
 		}
@@ -258,9 +265,30 @@ func printPattern(c RegexCase) string {
 
 func inRange(c, lo, hi int) bool { return lo <= c && c <= hi }
 
+// uniTable: Go's tables for the category names; used only to split the alphabet into classes (the verdict comes from the
+// reference in CharClasses.tla)
+func uniTable(name string) *unicode.RangeTable {
+	long := map[string]string{"Letter": "L", "Mark": "M", "Number": "N", "Punctuation": "P", "Separator": "Z", "Symbol": "S"}
+	if s, ok := long[name]; ok {
+		name = s
+	}
+	if t, ok := unicode.Categories[name]; ok {
+		return t
+	}
+	if t, ok := unicode.Scripts[name]; ok {
+		return t
+	}
+	return nil
+}
+
 func classHas(n string, c int) bool {
 	if c < 1 || c > 127 {
 		return false
+	}
+	if strings.HasPrefix(n, "p:") || strings.HasPrefix(n, "P:") {
+		t := uniTable(n[2:])
+		in := t != nil && unicode.Is(t, rune(c))
+		return in == (n[0] == 'p')
 	}
 	digit := inRange(c, '0', '9')
 	upper := inRange(c, 'A', 'Z')
